@@ -3,10 +3,10 @@
 patch="$1"; shift
 cd /repo || exit 2
 if ! git diff --quiet; then echo "repo dirty"; exit 2; fi
-git apply "$patch" || { echo "patch does not apply"; exit 2; }
+git apply "$patch" 2>/dev/null || patch -p1 --fuzz=3 -s < "$patch" || { echo "patch does not apply"; git checkout -- .; find . -name "*.orig" -o -name "*.rej" | xargs rm -f; exit 2; }
 rc=0
 for p in "$@"; do
   (cd /verif && ./check "$p" 2>&1 | grep -E "VIOLATION|KNOWN-FINDING|obligation:|quick:|UNDECIDED" | head -20)
 done
-git checkout -- . 
+git checkout -- . ; find . -name "*.orig" -o -name "*.rej" | xargs rm -f
 git status --short | head -3
